@@ -45,7 +45,7 @@ def handle (entry : String) (j : Json) : Except String Json := do
     let p ← getArgF (← field j "phase")
     let n ← getNat (← field j "n")
     let r := mcNow o p (.num twoPi) f n
-    pure <| Json.mkObj (runJson r ++ [("sin", arr bitsJson (r.1.map Float.sin)),
+    pure <| Json.mkObj (runJson r ++ [("sin", arr bitsJson (sinusoidNow o Float.sin twoPi f p n).1),
                                       ("branch", Json.str (mcBranchG o p (.num twoPi) f))])
   | "line_float" =>
     let dur ← getF (← field j "dur")
@@ -85,7 +85,8 @@ def handle (entry : String) (j : Json) : Except String Json := do
     let p ← getArgF (← field j "phase")
     let n ← getNat (← field j "n")
     let r := tableCallG o tbl den f p n
-    pure <| Json.mkObj (runJson r.1 ++ [("idx", arr bitsJson r.2)])
+    -- the outputs: today's code (`tableCallNow`, what the source translates to); the positions: the counter
+    pure <| Json.mkObj (runJson (tableCallNow o tbl den f p n) ++ [("idx", arr bitsJson r.2)])
   | _ => throw s!"C19: unknown entry {entry}"
 
 end ALV.Driver.C19Float
